@@ -47,6 +47,12 @@ def r081(an, rep):
         rep.add("R08.1", f"{ci.qual}::no attribute hooks", not bad and not hash_none, w,
                 f"defines {bad or '__hash__ = ...'}: immutability / hashability of the value can be bypassed" if (bad or hash_none) else "no __setattr__/__delattr__ override, __hash__ not disabled", nontrivial=False)
         for f in ci.fields:
+            fl = getattr(f, "flags", {})
+            excluded = [k for k in ("compare", "hash", "init") if k in fl and fl[k] is not True]
+            if excluded:
+                rep.add("R08.1", f"{ci.qual}.{f.name}::takes part in equality and hash", False, loc(ci.module, f.node),
+                        f"field({', '.join(f'{k}={fl[k]!r}' for k in excluded)}): {f.name} is left out of the generated __eq__/__hash__/__init__, but the encoder emits it - two values "
+                        f"that compare equal encode to different code objects (and as dict keys one silently replaces the other)")
             t = tg.field_type(f)
             mp = tg.mutable_parts(t)
             rep.add("R08.1", f"{ci.qual}.{f.name}::type", not mp, loc(ci.module, f.node),
